@@ -43,6 +43,7 @@ def evaluate(ctx, extra=()):
     cases = {r[0]: r for r in rows if len(r) > 6 and r[1] in ("ITEM", "SYN")}
     res = run_model(ctx, [f"{k}\t{r[2]}" for k, r in cases.items()])
     n_eq = n_panic = n_bad = 0
+    roots = collections.Counter()
     long_lines = collections.Counter()
     syn = collections.Counter()
     max_line = 0
@@ -86,6 +87,9 @@ def evaluate(ctx, extra=()):
             if width > w:
                 long_lines[w] += 1
         pf, gf = m[4] == "true", m[5] == "true"
+        if len(m) > 7 and r[1] == "ITEM":
+            roots["expression_roots(compiler items)"] += int(m[6])
+            roots["roots_inside_print_expr_roundtrip(subset and paren-free)"] += int(m[7])
         if r[1] == "ITEM":
             if not pf:
                 found.append(({"oracle": "go-printer-model", "kind": "needs-parentheses"},
@@ -123,6 +127,7 @@ def evaluate(ctx, extra=()):
         "longest_line": max_line, "items_with_a_line_longer_than": {str(k): v for k, v in sorted(long_lines.items())},
         "ast_forms_seen(items containing)": dict(sorted(forms.items())),
         "synthetic(strictness, goparse verdict, model verdict)": {" / ".join(k): v for k, v in sorted(syn.items())},
+        "theorem_reach": dict(roots),
         "samples": samples,
         "rule": "distinct = distinct item dumps; every item is printed by the real printer at three widths and by the model; equality is on bytes",
     }
